@@ -415,6 +415,16 @@ func checkContainerFS(c *Check) (int64, int64) {
 					tgtIsParam = true
 				}
 				c.Cond(tgtIsParam, "4/mask-path", "container."+maskFn.Name()+fmt.Sprintf(":mount#%d-target", nMount), p.Pos(ci.Pos()), "mask mount covers the masked path", "mask mount targets "+describe(ci.Common().Args[1]))
+				// what covers the path cannot be written: the bind arm binds (the read-only /dev/null node), the
+				// directory arm mounts an empty file system read-only
+				fl, isC := constInt(ci.Common().Args[3])
+				fsType, _ := constString(ci.Common().Args[2])
+				want, wname := MS("BIND"), "MS_BIND"
+				if fsType != "" {
+					want, wname = MS("RDONLY"), "MS_RDONLY"
+				}
+				c.Cond(isC && fl&want != 0, "4/mask-path", "container."+maskFn.Name()+fmt.Sprintf(":mount#%d-flags", nMount), p.Pos(ci.Pos()), "mask mount carries "+wname,
+					fmt.Sprintf("the mask mount is made with flags %#x, without %s: the file system covering a masked directory is writable — programs can leave files there, and Reset (which only empties the configured tmpfs mounts) never removes them", fl, wname))
 			}
 		}
 		c.Cond(nMount == 2, "4/mask-path", "container."+maskFn.Name()+":arms", p.Pos(maskFn.Pos()), "file arm (bind /dev/null) and directory arm (read-only tmpfs)", fmt.Sprintf("%d mount arms (expected 2)", nMount))
@@ -460,7 +470,7 @@ func checkContainerFS(c *Check) (int64, int64) {
 			ok2, _, _ := Valid(fImp(g, fOr(alts...)))
 			c.Cond(!bad && ok2 && len(alts) > 0, "4/mask-path", fmt.Sprintf("container.%s:nil-return@b%d", maskFn.Name(), b.Index), p.Pos(ret.Pos()), "success is reported only if the mask mount succeeded or the path does not exist", "maskPath reports success although masking failed: "+g.String())
 		}
-		c.Expect("4/mask-path", 4)
+		c.Expect("4/mask-path", 6)
 	}
 	return cmask, final
 }
